@@ -59,6 +59,15 @@ CHECKS.update({
  "C11": ("exploration","generated error values x registration tables + reference model from the statement",
    "Eleven error kinds (nil, plain, wrapped, registered plain value/pointer, marshalable in pointer and value form, three codec types incl. a failing one) x messages from a valid-UTF-8 pool x six registration tables x {error, (value,error)} x {ws,http,custom}; the model decides nil/non-nil, zero value, generic vs exact registered type, message/code preservation and content equality for types that carry content by contract; a client panic is caught and reported.",
    "Plain struct errors are only required to arrive with the right type and code; same code/different client type accepts any non-nil error.","2/C11"),
+ "C12": ("exploration","exhaustive run-time enumeration of a small naming universe + reference dispatch table, per-handler counters",
+   "Every configuration (3 namespaces x 2 overlapping handler types x 5 formatters x 5 alias tables) is a real server and every candidate method string (all formatted names under all formatters, alias names, case variants, degenerate names) a real request; clients sharing the formatter and rpc_method-tagged fields call every method over http and ws; for every non-raw catalogue method all arities 0..k+1 and a 12-probe JSON-type mismatch matrix per parameter, with decodability decided by encoding/json itself. Counters show which (instance, method) ran; rejected requests must leave all counters unchanged.",
+   "Colliding registrations under a namespace-less formatter: either instance accepted; alias-to-alias may resolve either way.","2/C12"),
+ "C13": ("exploration","host-process survival + sibling token-echo monitor around injected panics",
+   "The server (and, for reverse calls, the client) lives in a host process. Ten panic payloads x {unary ws/http, notification, channel-returning, reverse, custom} with healthy calls in flight and open streams on the same and on other connections across the panic; the panicking caller's error must mention the panic (and string/error payload text), siblings return their own tokens, streams are complete, 20 follow-up calls succeed, the host exits cleanly.",
+   "Siblings are kept in flight by handler-side delays.","2/C13"),
+ "C20": ("exploration","byte-exact digest monitor over generated payloads, forced arrival orders, io.Reader-contract probes",
+   "Payload lengths around every buffer size up to 4 MiB+3 x 4 content classes x 7 handler read patterns (incl. reads past EOF, Close after EOF, Close half-way) x arrival order forced both ways by wrappers around the upload and RPC handlers x 1/4/16 concurrent calls x {http, ws}; handler-side SHA-256/length must equal the caller's, every read after the last byte returns (0, EOF), no error or recovered panic reaches the caller, each upload request completes with 200, and no call observes another call's bytes. Runs under the race detector.",
+   "Orders are forced with a bounded escape; Close half-way is judged only for completion and absence of errors.","2/C20"),
 })
 NA={}
 def main():
